@@ -61,6 +61,21 @@ def run(ctx):
                     if f in rec and rec[f][:kk] != b[f][:kk]:
                         res.fail("interference", f"seed={seed} threaded: node {n_}.{f} differs under record settings {st}, max_records={mr}", dict(task=t, spec=spec, settings=st))
                         break
+                # the message records of the recorded steps: the truncated / projected record restricted to its steps is the full one restricted to them
+                for src, bm in (b.get("messages") or {}).items():
+                    rm = (rec.get("messages") or {}).get(src)
+                    if rm is None:
+                        if kk > 0 and any(si < kk for si in bm["seq_in"]):
+                            res.fail("projection", f"seed={seed} threaded: node {n_}: message record of {src} absent under settings {st}, max_records={mr} although {kk} steps are recorded", dict(task=t, spec=spec, settings=st))
+                        continue
+                    for f in ac.MSG_FIELDS:
+                        want_m = [x for x, si in zip(bm[f], bm["seq_in"]) if si < kk]
+                        got_m = [x for x, si in zip(rm[f], rm["seq_in"]) if si < kk]
+                        res.count("message_rows_compared", len(want_m))
+                        if want_m != got_m:
+                            res.fail("projection", f"seed={seed} threaded: node {n_}: message record of {src} ({f}) for the {kk} recorded steps under settings {st}, max_records={mr} has {len(got_m)} rows "
+                                     f"{got_m[:6]}, the fully recorded run has {len(want_m)} rows {want_m[:6]}", dict(task=t, spec=spec, settings=st, max_records=mr))
+                            break
                 for f, key in (("rng", "rng"), ("state", "state"), ("output", "output"), ("inputs", "inputs")):
                     has_inputs = any(c["dst"] == n_ for c in spec["conns"])
                     if f == "inputs" and not has_inputs:
